@@ -92,14 +92,15 @@ def compare_c18(cfg, items, bitems, plan):
     return out
 
 
-def build_c19(cfg, items, rnd):
+def build_c19(cfg, items, rnd, variant=0):
     """splice calls without effect into the history, chosen from what A's own probes show.
     -> (text, plan: list of (A idx, B idx)), or None if nothing could be spliced"""
     kind = cfg["kind"]
-    lines = [cfg["header"].replace(cfg["id"], cfg["id"] + "~19", 1)]
+    lines = [cfg["header"].replace(cfg["id"], cfg["id"] + "~19_%d" % variant, 1)]
     plan = []
     bi = 0
     written = set()
+    density = [0.45, 0.8, 0.25][variant % 3]
     spliced = 0
     last_probe = None
     for ai, it in enumerate(items):
@@ -113,7 +114,7 @@ def build_c19(cfg, items, rnd):
                 written.update(k for (_, k, _) in it["kvs"])
             continue
         pr = monitors.parse_probe(it["out"])
-        if pr is None or rnd.random() > 0.45:
+        if pr is None or rnd.random() > density:
             continue
         now = it["now"]
         live = [k for k, v in pr["view"].items() if v is not None]
